@@ -39,7 +39,7 @@ def gen_cases(tier, seed):
         ph = float(rng.uniform(0, 2 * np.pi))
         if kind == "uniform":
             zlo = -float(rng.uniform(100, 3000))
-            c.update(ice={"kind": "uniform", "n": float(rng.uniform(1.2, 1.9)), "range": [zlo, 0.0], "above": float(rng.choice([1.0, 1.3])), "below": float(rng.choice([1.5, 2.0]))},
+            c.update(ice={"kind": "uniform", "n": float(rng.uniform(1.2, 1.9)), "range": [zlo, 0.0], "above": [1.0, 1.3, 1.0, None][int(rng.integers(0, 4))], "below": [1.5, 2.0, 1.5, None][int(rng.integers(0, 4))]},
                      max_reflections=int(rng.integers(0, 4)))
         elif kind == "stack":
             zlo = -1000.0
@@ -107,7 +107,17 @@ def run_uniform(case, v):
     sols = list(tr.solutions)
     geo = {"from": a.tolist(), "to": b.tolist(), "n": n, "range": [zlo, 0.0], "max_reflections": Rm, "endpoint_type": et or "float ndarray"}
     v.check(bool(tr.exists) == (len(sols) > 0), "exists <=> the solution list is non-empty", **geo)
-    v.check(len(sols) == 2 * Rm + 1, "one direct path and two paths per allowed number of reflections", n_solutions=len(sols), **geo)
+    # a surface without a declared index outside cannot reflect: a path that starts upwards with k reflections touches the top when
+    # k >= 1 and the bottom when k >= 2 (the other way round when it starts downwards)
+    has_top, has_bot = case["ice"].get("above") is not None, case["ice"].get("below") is not None
+    allowed = {(0, None)}
+    for k_ in range(1, Rm + 1):
+        if has_top and (k_ < 2 or has_bot):
+            allowed.add((k_, True))
+        if has_bot and (k_ < 2 or has_top):
+            allowed.add((k_, False))
+    geo.update(index_above=case["ice"].get("above"), index_below=case["ice"].get("below"))
+    v.check(len(sols) == len(allowed), "one direct path and two paths per allowed number of reflections (none off a surface without an index)", n_solutions=len(sols), expected=len(allowed), **geo)
     H = -zlo
     seen = set()
     for p in sols:
@@ -138,6 +148,7 @@ def run_uniform(case, v):
         v.check(bool(np.allclose(pts[0], a, rtol=0, atol=1e-9) and np.allclose(pts[-1], b, rtol=0, atol=1e-9)), "path starts at the source and ends at the receiver", **det)
         for q in pts[1:-1]:
             v.check(bool(q[2] == 0 or q[2] == zlo), "reflection points lie on the ice boundaries", point=q.tolist(), **det)
+            v.check(bool((q[2] == 0 and has_top) or (q[2] == zlo and has_bot) or (q[2] != 0 and q[2] != zlo)), "no path reflects off a surface that has no index outside", point=q.tolist(), **det)
             # ... and on the unfolded image line: horizontal position proportional to the vertical distance travelled
         if k > 0:
             trav = np.concatenate(([0.0], np.cumsum(np.abs(np.diff(pts[:, 2])))))
